@@ -6,6 +6,8 @@ import Fx.Eval
 import Fx.Lemmas.Advance
 import Fx.Props.C10
 import Fx.Lemmas.LogBound
+import Fx.Lemmas.Total
+import Fx.Lemmas.EmitPlans
 namespace Fx.C09
 open Fx
 
@@ -54,5 +56,48 @@ theorem C09_array_reader_bounded (dec : Cur → Res Val) (ws : Val → Nat) (hd 
     four bytes (a count of 2^32-1) requested 2^32-1 elements -/
 def reserve_old (n : Nat) (_remaining : Nat) : Ev := .vec n
 theorem C09_defect_reserve_old : (reserve_old (2^32 - 1) 0).weight = 4294967295 := by decide
+
+/-- **C09 (the total).**  For ALL byte strings, every plan whose size impls are exact and whose array elements consume input
+    (`Plans.elemsSure`, decidable: an element of zero encoded size has no bound on its count), every type and recursion
+    budget `f`, success or failure: the allocation events the call adds — `Vec` reservations in elements, string copies in
+    bytes, four per `Box` — weigh in total at most `f` × (bytes consumed) on success and `f` × (bytes present) on failure.
+    `f` bounds the nesting depth of decoder calls.  For a specification without recursion through counted arrays the depth
+    needed does not grow with such nesting and the total is linear in the input; for `struct t { t kids<>; }` the depth grows
+    with the input and the total is quadratic — finding K11, witnessed below and on the real decoder. -/
+theorem C09_total_bounded (a : Ast) (p : Plans) (hp : p.SizeExact' = true) (hs : p.elemsSure = true)
+    (f : Nat) (name : String) (c : Cur) (l' : List Ev) (h : (evalImpl a p f name c).log? = some l') :
+    ∃ new, l' = c.log ++ new ∧ wt new ≤ f * c.remaining := by
+  have ht := (eval_total a p hp hs f).1 name c
+  cases hr : evalImpl a p f name c with
+  | ok v c' =>
+    rw [hr] at ht h
+    obtain ⟨hle, new, hl, hw⟩ := ht
+    cases h
+    exact ⟨new, hl, Nat.le_trans hw (Nat.mul_le_mul_left _ (Nat.sub_le _ _))⟩
+  | err e l =>
+    rw [hr] at ht h
+    cases h
+    exact ht
+  | panic s => rw [hr] at h; cases h
+  | abort => rw [hr] at h; cases h
+  | outOfFuel => rw [hr] at h; cases h
+
+/-- on success the charge is per byte *consumed* (so sibling arrays do not multiply it) -/
+theorem C09_total_success (a : Ast) (p : Plans) (hp : p.SizeExact' = true) (hs : p.elemsSure = true)
+    (f : Nat) (name : String) (c : Cur) (v : Val) (c' : Cur) (h : evalImpl a p f name c = .ok v c') :
+    ∃ new, c'.log = c.log ++ new ∧ wt new ≤ f * (c.remaining - c'.remaining) := by
+  have ht := (eval_total a p hp hs f).1 name c
+  rw [h] at ht
+  exact ht.2
+
+/-- K11 in the model (a test, not the unbounded claim): the plans of `struct t { t kids<>; }` on 16, 32 and 64 bytes of `ff`
+    request 24, 112 and 480 units — the total grows quadratically (2k(k-1) for 4k bytes) while every single request stays
+    below the bytes present -/
+def k11Plans : Plans :=
+  ⟨[⟨"t", false, .struct [.plain "kids" (.varArr "t" false none)]⟩], [⟨"t", false, .struct [⟨"kids", false, false⟩]⟩]⟩
+
+example : ((evalImpl ⟨[], [], []⟩ k11Plans 40 "t" ⟨0, List.replicate 16 255, []⟩).log?.map wt) = some 24 := by decide
+example : ((evalImpl ⟨[], [], []⟩ k11Plans 40 "t" ⟨0, List.replicate 32 255, []⟩).log?.map wt) = some 112 := by decide
+example : k11Plans.SizeExact' = true ∧ k11Plans.elemsSure = true := by decide
 
 end Fx.C09
